@@ -105,6 +105,32 @@ def h_note_byte_low(b: int, which: int) -> int:
     return 1 if MidiNote.from_midi_byte(b).to_midi_byte() == b else 0
 
 
+def _field_codecs():
+    """the note FIELD codecs the parsers really use (construct ExprAdapters wrapping the MidiNote conversions): AKAI sample / keygroup notes,
+    the Roland sample's original key, the WAV smpl chunk's unity note"""
+    from construct import Int8ul, ExprAdapter
+    from smpl_extract.akai.data_types import AkaiMidiNote
+    from smpl_extract.roland.s7xx.sample_entry import RolandMidiNote
+    from smpl_extract.formats.wav import WavSampleChunkStruct
+    wav = [sc for sc in WavSampleChunkStruct.subcons if getattr(sc, "name", None) == "midi_note"][0].subcon
+    assert isinstance(wav, ExprAdapter)
+    return [(AkaiMidiNote(Int8ul), 0), (RolandMidiNote(Int8ul), 1), (wav, 1)]
+
+
+def h_note_field(b: int, which: int) -> int:
+    """
+    pre: 0 <= b <= 255 and 0 <= which <= 2
+    post: _ == 1
+    """
+    CNT[0] += 1
+    codec, kind = _field_codecs()[which]
+    note = codec._decode(b, {}, "")
+    want = MidiNote.from_akai_byte(b) if kind == 0 else MidiNote.from_midi_byte(b)
+    if not (note.scale_degree == want.scale_degree and note.is_sharp == want.is_sharp and note.octave == want.octave):
+        return 0                                   # the field decodes to the note the number stands for
+    return 1 if codec._encode(note, {}, "") == b else 0
+
+
 def h_note_text(deg: int, sharp: int, octave: int) -> int:
     """
     pre: 0 <= deg <= 6 and 0 <= sharp <= 1 and 0 <= octave <= 9
@@ -172,6 +198,9 @@ def obligations(tier, seed):
            ob("C18.note/midi", "h_note_byte", ["which == 1"], "note byte", "21..255"),
            ob("C18.note/akai/below-A0", "h_note_byte_low", ["which == 0"], "note byte", "0..20"),
            ob("C18.note/midi/below-A0", "h_note_byte_low", ["which == 1"], "note byte", "0..20"),
+           ob("C18.note/field/akai", "h_note_field", ["which == 0"], "note byte", "0..255 (all) through the live AkaiMidiNote adapter"),
+           ob("C18.note/field/roland", "h_note_field", ["which == 1"], "note byte", "0..255 (all) through the live RolandMidiNote adapter"),
+           ob("C18.note/field/wav-smpl", "h_note_field", ["which == 2"], "note byte", "0..255 (all) through the live smpl-chunk adapter"),
            ob("C18.note/text", "h_note_text", [], "degree, sharp, octave", "7 x 2 x 10 (all)")]
     for n in ((1, 2) if tier == "quick" else (1, 2, 3)):
         obs.append(ob(f"C18.char/name/n={n}", "h_char_str", [f"n == {n}"], "every character code of a name", f"names of {n} characters over the 41 valid codes"))
